@@ -2,7 +2,27 @@
 from __future__ import annotations
 
 from .harness import Explorer
-from .rules import part
+from .rules import part, wrappers, pent
+
+
+def _class_of(table, key):
+    """Class dispatched for an operator row; None when the DISPATCH obligation for that row was refuted (the
+    operator rules then have nothing sound to run on, and the dispatch violation is the report)."""
+    return table.get(key)
+
+
+def C01(rep, prog, tier):
+    rep.explanation = ("C01: negation/polarity/mode of PEntailment._inference, the shared short cut (guard by satisfiability "
+                       "patterns, dominance by who-may-call), the dispatch table, and the tolerance-partition obligations PART.* of "
+                       "`consistency`; decides the code's shape, not the Goldszmidt-Pearl theorem or the SAT solver")
+    ex = Explorer(prog, rep)
+    table = wrappers.dispatch(rep, ex)
+    cls = _class_of(table, ("p-entailment", None))
+    if cls:
+        pent.check(rep, ex, cls, strict=True, extended=False)
+    wrappers.shortcut_guard(rep, ex)
+    wrappers.shortcut_dominance(rep, ex)
+    part.check_all(rep, ex, only=("inference.consistency_sat.consistency",))
 
 
 def C06(rep, prog, tier):
@@ -11,6 +31,9 @@ def C06(rep, prog, tier):
     ex = Explorer(prog, rep)
     part.check_all(rep, ex)
     part.check_siblings(rep, ex)
+    wrappers.refuse(rep, ex)
+    wrappers.refuse_manager(rep, ex)
+    wrappers.shortcut_dominance(rep, ex)
 
 
-CHECKS = {"C06": C06}
+CHECKS = {"C01": C01, "C06": C06}
